@@ -40,32 +40,51 @@ def sqrtP (a : Nat) : Option Nat :=
   let c := powMod a ((p + 1) / 4) p
   if c * c % p = a % p then some c else none
 
-/-- Square root in `Fp2` by the norm: for `a = a0 + a1 i` with `a1 ≠ 0`, `x0² = (a0 ± √(a0²+a1²))/2` and
-    `x1 = a1/(2 x0)`; for `a1 = 0` either `√a0` or `i·√(-a0)`. The result is checked by squaring. -/
-def sqrtFp2 (a : Fp2.El) : Option Fp2.El :=
-  let a := Fp2.red p a
-  let chk (x : Fp2.El) : Option Fp2.El := if Fp2.mul p x x = a then some x else none
-  if a.2 = 0 then
-    match sqrtP a.1 with
-    | some s => chk (s, 0)
-    | none => match sqrtP (negMod a.1 p) with
-      | some s => chk (0, s)
-      | none => none
-  else
-    match sqrtP ((a.1 * a.1 + a.2 * a.2) % p) with
+/-- The final check of the square root: the candidate must square to the argument. -/
+def chkRoot (a x : Fp2.El) : Option Fp2.El := if Fp2.mul p x x = a then some x else none
+
+/-- Square root of `a0 + 0·i`: `√a0`, or `i·√(-a0)`. -/
+def sqrtReal (a : Fp2.El) : Option Fp2.El :=
+  match sqrtP a.1 with
+  | some s => chkRoot a (s, 0)
+  | none => match sqrtP (negMod a.1 p) with
+    | some s => chkRoot a (0, s)
     | none => none
-    | some s =>
-      let inv2 := invMod 2 p
-      let d1 := (a.1 + s) % p * inv2 % p
-      let d2 := subMod a.1 s p * inv2 % p
-      let x0? := match sqrtP d1 with
-        | some x0 => some x0
-        | none => sqrtP d2
-      match x0? with
-      | none => none
-      | some x0 => chk (x0, a.2 * invMod (2 * x0 % p) p % p)
+
+def pickX0 (d1 d2 : Nat) : Option Nat :=
+  match sqrtP d1 with
+  | some x0 => some x0
+  | none => sqrtP d2
+
+/-- Square root of `a0 + a1·i`, `a1 ≠ 0`, by the norm: `x0² = (a0 ± √(a0²+a1²))/2`, `x1 = a1/(2 x0)`
+    (`inv2` is `1/2`). -/
+def sqrtGenWith (inv2 : Nat) (a : Fp2.El) : Option Fp2.El :=
+  match sqrtP ((a.1 * a.1 + a.2 * a.2) % p) with
+  | none => none
+  | some s =>
+    match pickX0 ((a.1 + s) % p * inv2 % p) (subMod a.1 s p * inv2 % p) with
+    | none => none
+    | some x0 => chkRoot a (x0, a.2 * invMod (2 * x0 % p) p % p)
+
+def sqrtGen (a : Fp2.El) : Option Fp2.El := sqrtGenWith (invMod 2 p) a
+
+/-- Square root in `Fp2`. The result is always checked by squaring (`chkRoot`). -/
+def sqrtFp2 (a : Fp2.El) : Option Fp2.El :=
+  if (Fp2.red p a).2 = 0 then sqrtReal (Fp2.red p a) else sqrtGen (Fp2.red p a)
 
 def rhsG2 (x : Fp2.El) : Fp2.El := Fp2.add p (Fp2.mul p (Fp2.mul p x x) x) twistB
+
+/-- The root selected by the "larger root" flag. -/
+def selectRoot (big : Bool) (y0 : Fp2.El) : Fp2.El := if largerRoot y0 = big then y0 else Fp2.neg p y0
+
+/-- Decompress `x = xr + xi·i` with the "larger root" flag, then test the order. -/
+def decG2Affine (big : Bool) (xr xi : Nat) : Option Fp2.Pt :=
+  if p ≤ xi ∨ p ≤ xr then none else
+  match sqrtFp2 (rhsG2 (xr, xi)) with
+  | none => none
+  | some y0 =>
+    if Fp2.smul twist r (some ((xr, xi), selectRoot big y0)) = none
+    then some (some ((xr, xi), selectRoot big y0)) else none
 
 /-- Decoder of the compressed form: exactly 96 bytes, compression bit set, infinity only as `c0 00…00`,
     coordinates `< p`, on the twist, of order dividing `r`. -/
@@ -77,15 +96,7 @@ def decG2 (bs : Bytes) : Option Fp2.Pt :=
     else if b0.toNat / 128 = 0 then none
     else if b0.toNat / 64 % 2 = 1 then
       (if b0.toNat = 0xc0 ∧ rest.all (· == 0) = true then some none else none)
-    else
-      let xi := decodeBE (UInt8.ofNat (b0.toNat % 32) :: rest.take 47)
-      let xr := decodeBE (rest.drop 47)
-      if p ≤ xi ∨ p ≤ xr then none else
-      match sqrtFp2 (rhsG2 (xr, xi)) with
-      | none => none
-      | some y0 =>
-        let big := b0.toNat / 32 % 2 == 1
-        let y := if largerRoot y0 = big then y0 else Fp2.neg p y0
-        if Fp2.smul twist r (some ((xr, xi), y)) = none then some (some ((xr, xi), y)) else none
+    else decG2Affine (b0.toNat / 32 % 2 == 1) (decodeBE (rest.drop 47))
+      (decodeBE (UInt8.ofNat (b0.toNat % 32) :: rest.take 47))
 
 end Kyber.BLS12381
